@@ -75,6 +75,7 @@ def sessions(ctx):
         for k in range(ctx.pick(150, 1500)):
             g = gen.SessionGen(ctx.seed * 15485863 + k, nconn=(2, 5), nmsg=(20, 70), junk=0.05, core=True, cmds=0.12 if k % 2 else 0.0, titles=0.12)
             yield g.session(), {'dialect': 'new'}, 'random-multi'
+        yield from sessbase.rich_sessions(ctx, 1000099, ctx.pick(40, 400), nconn=(2, 4), cmds=0.1)
         for k in range(ctx.pick(60, 400)):
             yield appid_session(ctx.seed * 2750159 + k), {'dialect': 'new'}, 'titles-and-appids'
         for k in range(ctx.pick(150, 1500)):
